@@ -9,10 +9,12 @@ class C04(Property):
     lean_module = "RosuModel.Props.C04All"   # imports Props/C04Slider.lean, Props/C04Timing.lean (which import Props/C04.lean), Props/C04File.lean, Props/C04Toy.lean, Props/C04Decoded.lean and Props/C04Ieee.lean; all in namespace Rosu.C04
     theorem_modules = ['RosuModel.Props.C04All', 'RosuModel.Props.C04Ieee', 'RosuModel.Props.C04DecodedIeee', 'RosuModel.Props.C04DecodedObjects', 'RosuModel.Props.C04DecodedObjectsToy',
                        'RosuModel.Props.C04DecodedObjectsIeee', ('RosuModel.Lemmas.DecodedObjInv', 'Rosu.DecodedObj'),
+                       'RosuModel.Props.C04DecodedPaths', 'RosuModel.Props.C04DecodedPathsIeee', ('RosuModel.Lemmas.DecodedPathInv', 'Rosu.DecodedPath'),
                        'RosuModel.Props.C04DecodedTiming', 'RosuModel.Props.C04DecodedTimingToy', 'RosuModel.Props.C04DecodedTimingIeee']   # files whose top-level theorems are all audited
     namespace = "Rosu.C04"
     design_ref = "5.4"
     required_theorems = [
+        "decoded_path_shape", "decoded_path_shape_iff", "decoded_sliders_representable", "hitobjects_block_accepted_decoded_f17", "f17_needed", "pathLaws_ieee", "decoded_path_shape_ieee",
         "decoded_stored_points_rep", "decoded_repTimingMap_partial", "timing_lines_accepted_decoded", "encoded_file_accepted_decoded", "decoded_repTimingMap_statement_false",
         "decoded_stored_points_rep_ieee", "timing_lines_accepted_decoded_ieee", "svLaws_float",
         "decoded_circles_representable", "decoded_spinners_representable", "decoded_holds_representable", "decoded_sliders_representable_partial", "hitobjects_block_accepted_decoded",
@@ -111,7 +113,9 @@ class C04(Property):
             "every circle / spinner / hold of a decoded map is RepCircle / RepSpinner / RepHold, and every slider RepSlider, in any mode, under NAMED residuals only - codec laws ObjLaws (a THEOREM for the IEEE instances: objLaws_ieee, so "
             "decoded_circles_representable_ieee has no law left), DurLaws (start + duration representable and recovering the duration; toy instance; REFUTED for IEEE doubles by the sign of a zero only: durLaws_float_false - start +0, end -0), "
             "CtrlLaws (control-point offsets; toy instance, not instantiated for IEEE); the findings' predicates FileNameResidual.trimmed (F21), SliderResidual.computed (F20); FileNameResidual.noBar (`|` in a circle's file name: RepSampleFile is shared "
-            "with sliders; the line is accepted anyway: objBar_accepted_anyway); and SliderResidual.shape = the type / shape half of RepPath (where F17 lives), which is ASSUMED, not yet derived from convert_path_str - hence _partial. F18 does not enter. "
+            "with sliders; the line is accepted anyway: objBar_accepted_anyway); and SliderResidual.shape = the type / shape half of RepPath (where F17 lives) - assumed in this file and DERIVED from convert_path_str in Props/C04DecodedPaths.lean "
+            "(decoded_path_shape: for every decoded slider PathShapeOk holds EXACTLY when the decidable predicate F17Free does; pathLaws_ieee: the two laws it needs - == on integer-valued f32 is equality, no letter-leading text is a number - are theorems of the "
+            "IEEE instances; f17_needed: three decoded lines outside F17Free, kernel-evaluated on the toy codec and on Float / Float32), so decoded_sliders_representable has the residuals F17Free and F20 only; the harness oracles use the transcription of F17Free. F18 does not enter. "
             "Corollaries: hitobjects_block_accepted_decoded (C04.hitobjects_block_accepted with RepObject discharged), decoded_repMap_partial, encoded_file_accepted_decoded_partial (the file-level statement for decoded maps; RepTimingMap stays a hypothesis). "
             "Non-vacuity: three decoded files (circle with hit.wav, spinner, hold) evaluated in the kernel. The unconditional statement is refuted on a decoded file: objF21_not_repObject (`256,192,1000,1,0,0:0:0:0:a ,x` gives the file name `a `)",
         "decoded_repTimingMap_partial / timing_lines_accepted_decoded / encoded_file_accepted_decoded (the [TimingPoints] block of DECODED maps; the file-level statement with no Rep* hypothesis)":
@@ -194,6 +198,8 @@ class C04(Property):
             return "F20"
         if "explained=timing-points-within-epsilon" in out and any(f["id"] == "F22" for f in findings):
             return "F22"
+        if "explained=end-time-above-parse-limit" in out and any(f["id"] == "F26" for f in findings):
+            return "F26"
         return None
 
     def is_nontrivial(self, case, impl_out):
